@@ -15,3 +15,8 @@ T-SHIELD, i.e. assumed - the proof is of the call shapes on every path of the re
 from .C12 import AsyncCall, AsyncMethod, c13_variant
 
 CONTRACTS = [c13_variant(AsyncCall), c13_variant(AsyncMethod)]
+
+
+def extra_contracts():
+    from .common import mimic_variants
+    return mimic_variants("C13")
